@@ -22,7 +22,7 @@ RULE = ("cases from rng(seed, 13, 0, i): graphs of SE(2)/SE(3) poses and R^2/R^3
         "content (R^n odometry, R^n->R^n landmark edges, SE(2) landmark edge with non-identity offset) is refused. distinct = spec fingerprint; non-trivial = >= 2 edges and "
         ">= 1 non-integer value.")
 REQ = ["eval:roundtrip-structure", "eval:roundtrip-vertex-poses", "eval:roundtrip-edge-measurements", "eval:roundtrip-information", "eval:roundtrip-offsets", "eval:roundtrip-chi2",
-       "eval:file-tokens-exact", "eval:inexpressible-content-refused", "class:family:2d", "class:family:3d", "class:family:both", "class:extreme_values", "class:meas_quat_wneg",
+       "eval:file-tokens-exact", "eval:element-level-roundtrip", "eval:inexpressible-content-refused", "class:family:2d", "class:family:3d", "class:family:both", "class:extreme_values", "class:meas_quat_wneg",
        "class:offset_rotated", "class:cycles>1", "class:huge_ids"]
 PLAN = {
     "quick": {"cases": 1500, "soft_s": 70, "min_nontrivial": 400, "require": REQ},
@@ -245,6 +245,51 @@ def check_file_tokens(ctx, path, g0, feats, case):
     return ctx.check("file-tokens-exact", ok, feats, {"why": why}, case)
 
 
+def element_roundtrips(ctx, g0, feats, case):
+    """The per-element entry points (Vertex / EdgeOdometry / EdgeLandmark / G2OParameter*.to_g2o + from_g2o) used directly."""
+    atol = 4 * R.EPS * math.pi
+    ok = True
+    why = None
+    params = g0._g2o_params or {}
+    try:
+        for v in g0._vertices:
+            w = M.Vertex.from_g2o(v.to_g2o())
+            k = M.kind(v.pose)
+            pa, pb = M.fl(v.pose), M.fl(w.pose)
+            same = w is not None and w.id == v.id and type(w.pose) is type(v.pose) and ((pa[:2] == pb[:2] and R.ang_diff(pa[2], pb[2]) <= atol) if k == "se2" else M.same_numbers(k, pa, pb))
+            if not same:
+                ok, why = False, ("vertex", str(v.id), pa, pb)
+                break
+        for key, prm in params.items():
+            q = type(prm).from_g2o(prm.to_g2o())
+            va, vb = M.fl(prm.value), M.fl(q.value) if q is not None else None
+            k = M.kind(prm.value)
+            same = q is not None and q.key == prm.key and ((va[:2] == vb[:2] and R.ang_diff(va[2], vb[2]) <= atol) if k == "se2" else M.same_numbers(k, va, vb))
+            if not same:
+                ok, why = False, ("param", str(key), va, vb)
+                break
+        for e in g0._edges:
+            line = e.to_g2o()
+            f = type(e).from_g2o(line, params)
+            same = f is not None and type(f) is type(e) and list(f.vertex_ids) == list(e.vertex_ids) and np.array_equal(np.asarray(f.information), np.asarray(e.information), equal_nan=True)
+            if same:
+                ea, eb = M.fl(e.estimate), M.fl(f.estimate)
+                if isinstance(e.estimate, M.PoseSE2):
+                    same = ea[:2] == eb[:2] and R.ang_diff(ea[2], eb[2]) <= atol
+                elif isinstance(e.estimate, M.PoseSE3):
+                    same = ea[:3] == eb[:3] and quat_equiv(ea[3:], eb[3:], 4 * R.EPS)
+                else:
+                    same = M.same_numbers("r", ea, eb)
+            if same and isinstance(e, M.EdgeLandmark) and isinstance(e.offset, M.PoseSE3):
+                same = M.same_numbers("se3", M.fl(e.offset), M.fl(f.offset)) and f.offset_id == e.offset_id
+            if not same:
+                ok, why = False, ("edge", [str(x) for x in e.vertex_ids], line[:200])
+                break
+    except Exception as ex:
+        ok, why = False, ("exception", type(ex).__name__, str(ex)[:200])
+    ctx.check("element-level-roundtrip", ok, feats, {"why": why}, case)
+
+
 def roundtrip_case(ctx, i, rng):
     spec, fam, ext = make_spec(rng, ctx)
     cycles = int(rng.integers(1, 6))
@@ -265,6 +310,7 @@ def roundtrip_case(ctx, i, rng):
                 return
             if c == 1:
                 check_file_tokens(ctx, path, g0, feats, case)
+                element_roundtrips(ctx, g0, feats, case)
             try:
                 g = M.Graph.from_g2o(path)
             except Exception as ex:
